@@ -53,7 +53,17 @@ func propC09(t *rapid.T) {
 		sc.Config.MaxMsg = 1 << 20
 		if rapid.Bool().Draw(t, "fault_on_request") {
 			sc.Client.Fault = genFault(t, requestFaults)
-			if formEnveloped(sc.Client.Form) && rapid.IntRange(0, 3).Draw(t, "duplex_backend") == 0 {
+			if formEnveloped(sc.Client.Form) && rapid.IntRange(0, 2).Draw(t, "duplex_backend") == 0 {
+				if (sc.Client.Form == FormGRPC || sc.Client.Form == FormGRPCWeb) && rapid.Bool().Draw(t, "duplex_connect_target") {
+					// toward a Connect backend a unary answer is held back by the transcoder (to be enveloped)
+					// while the handler is still running
+					sc.Config.Protocols = []string{ProtoConnect}
+					sc.Config.OtherOpts = nil
+				}
+				if rapid.Bool().Draw(t, "duplex_invalid_flag") {
+					// a fault the transcoder finds by itself while the handler is already answering
+					sc.Client.Fault = &Fault{Kind: FaultFlag, At: rapid.IntRange(0, 2).Draw(t, "duplex_flag_frame"), Val: rapid.SampledFrom([]int{2, 3, 9, 0x80, 0xff, 1}).Draw(t, "duplex_flag")}
+				}
 				// a streaming handler that has already sent (some of) its answer when the request turns out
 				// to be faulty, and keeps answering per script
 				sc.Backend.ReadAfterWrites = rapid.IntRange(1, 3).Draw(t, "read_after_writes")
